@@ -216,6 +216,29 @@ class PolyInterp:
             return (0, 1)
         return None
 
+    def small_by_construction(self, o, bits):
+        """the value fits `bits` signed bits by the instruction that defines it (x % c, x & c, a widened narrower value, a comparison)"""
+        if o.get("k") == "c":
+            return True
+        d = self.inst_of.get(o.get("id")) if o.get("k") == "v" else None
+        if d is None:
+            return False
+        lim = 1 << (bits - 1)
+        dops = d.get("ops", [])
+        if d["op"] in ("srem", "urem") and dops[1].get("k") == "c" and 0 < abs(int(dops[1]["s"])) <= lim:
+            return True
+        if d["op"] == "and" and any(x.get("k") == "c" and 0 <= int(x["s"]) < lim for x in dops):
+            return True
+        if d["op"] in ("sext", "zext") and (dops[0].get("bits") or self.width_of(dops[0])) < bits:
+            return True
+        if d["op"] in ("icmp", "fcmp"):
+            return True
+        if d["op"] == "select":
+            return all(self.small_by_construction(x, bits) for x in dops[1:3])
+        if d["op"] == "phi":
+            return False
+        return False
+
     # ---- arithmetic helpers
     def rng(self, p):
         """interval of a polynomial from atom facts (best effort); None if unknown"""
@@ -553,6 +576,9 @@ class PolyInterp:
                     if b > 1 and v >= (1 << (b - 1)):
                         v -= (1 << b)
                     self.val[i] = Poly.const(v)
+                elif b >= 32 and self.small_by_construction(ops[0], b):
+                    # the operand is a remainder / masked value / widened narrower value: the truncation is the identity
+                    self.val[i] = a
                 elif b >= 32:
                     # int(...) of a pointer-sized offset: identity unless the offset exceeds 2^31 (assumption recorded)
                     self.assumed.add("offsets narrowed to %d bits do not overflow" % b)
